@@ -416,3 +416,131 @@ func init() {
 	register("c19-monitor", c19Monitor)
 	register("c20-monitor", c20Monitor)
 }
+
+// c19-cases <collections> <seed> <out.v>: per-game addToBook steps (from an independent replay) and
+// the real book's entries, for BookModel.book_case_ok; c20 cases for CacheModel.cache_case_ok.
+func c19Cases(args []string) int {
+	n, _ := strconv.Atoi(args[0])
+	seed, _ := strconv.ParseUint(args[1], 10, 64)
+	rng := NewRng(seed)
+	f, err := os.Create(args[2])
+	if err != nil {
+		die(err)
+	}
+	defer f.Close()
+	var sb strings.Builder
+	rep := NewReport("c19-cases")
+	dir, _ := ioutil.TempDir("", "verifbookc")
+	defer os.RemoveAll(dir)
+	sb.WriteString("(* GENERATED by verifh c19-cases *)\nFrom Coq Require Import NArith List Bool.\nFrom FG Require Import BookModel CacheModel CasesBook.\nImport ListNotations.\nOpen Scope N_scope.\n")
+	sb.WriteString("Definition cases : list (N * list (list (N*N*N)) * list (N*N*list (N*N))) := [\n")
+	for c := 0; c < n; c++ {
+		games := genBookGames(rng, 3+rng.Intn(10))
+		formats := []struct {
+			file string
+			f    openingbook.BookFormat
+			txt  string
+		}{{"s.txt", openingbook.Simple, renderSimple(games, rng)}, {"a.txt", openingbook.San, renderSan(games)}, {"p.pgn", openingbook.Pgn, renderPgn(games, rng)}}
+		ft := formats[rng.Intn(3)]
+		ioutil.WriteFile(filepath.Join(dir, ft.file), []byte(ft.txt), 0644)
+		b, err, hung := buildBook(dir, ft.file, ft.f, false)
+		if hung || err != nil {
+			rep.Violate("book-build-fails", map[string]interface{}{"collection": c, "format": ft.file}, fmt.Sprint(err, hung))
+			continue
+		}
+		root := position.NewPosition()
+		if c > 0 {
+			sb.WriteString(";\n")
+		}
+		fmt.Fprintf(&sb, "(%d, [", uint64(root.ZobristKey()))
+		for gi, g := range games {
+			if gi > 0 {
+				sb.WriteString("; ")
+			}
+			sb.WriteString("[")
+			p := position.NewPosition()
+			for mi, m := range g.moves {
+				if mi > 0 {
+					sb.WriteString(";")
+				}
+				cur := uint64(p.ZobristKey())
+				p.DoMove(m)
+				fmt.Fprintf(&sb, "(%d,%d,%d)", cur, uint64(p.ZobristKey()), uint32(m.MoveOf()))
+			}
+			sb.WriteString("]")
+		}
+		sb.WriteString("], [")
+		first := true
+		for k, e := range b.VerifEntries() {
+			if !first {
+				sb.WriteString("; ")
+			}
+			first = false
+			fmt.Fprintf(&sb, "(%d,%d,[", k, e.Counter)
+			for si, s := range e.Moves {
+				if si > 0 {
+					sb.WriteString(";")
+				}
+				fmt.Fprintf(&sb, "(%d,%d)", s.Move, s.NextEntry)
+			}
+			sb.WriteString("])")
+		}
+		sb.WriteString("])")
+		rep.Cases++
+		rep.Stats["games"] += len(games)
+	}
+	sb.WriteString("].\nDefinition M := Eval vm_compute in (book_mismatches cases).\nPrint M.\n")
+	// cache cases: (kind, nlines, useCache, recreate, prior, observed)
+	sb.WriteString("Definition ccases : list (N * nat * bool * bool * N * (bool*bool*bool*bool*bool)) := [\n")
+	games := genBookGames(rng, 3)
+	src := filepath.Join(dir, "c.txt")
+	ioutil.WriteFile(src, []byte(renderSan(games)), 0644)
+	exp := expectedBook(games)
+	bfull, _, _ := buildBook(dir, "c.txt", openingbook.San, true)
+	_ = bfull
+	full, _ := ioutil.ReadFile(src + ".cache")
+	firstc := true
+	for _, kind := range []int{0, 1, 2} {
+		for _, useCache := range []bool{true, false} {
+			for _, recreate := range []bool{false, true} {
+				switch kind {
+				case 0:
+					os.Remove(src + ".cache")
+				case 1:
+					ioutil.WriteFile(src+".cache", full[:len(full)/2], 0644)
+				case 2:
+					ioutil.WriteFile(src+".cache", full, 0644)
+				}
+				b := openingbook.NewBook()
+				var ierr error
+				returned := callWithWatchdog(20*time.Second, func() { ierr = b.Initialize(dir, "c.txt", openingbook.San, useCache, recreate) })
+				if !returned {
+					rep.Violate("cache-init-hangs", map[string]interface{}{"kind": kind, "useCache": useCache, "recreate": recreate}, "")
+					continue
+				}
+				eq := diffSnap(exp, snapshotOf(b)) == ""
+				// lock free afterwards: another book can be built
+				b2 := openingbook.NewBook()
+				lockFree := callWithWatchdog(20*time.Second, func() { b2.Initialize(dir, "c.txt", openingbook.San, false, false) })
+				after, _ := ioutil.ReadFile(src + ".cache")
+				cacheGood := len(after) == len(full) && len(full) > 0 // gob writes map entries in random order: same length, not same bytes
+				if !useCache {
+					cacheGood = (kind == 2) // untouched
+				}
+				if !firstc {
+					sb.WriteString(";\n")
+				}
+				firstc = false
+				fmt.Fprintf(&sb, "(%d, %d%%nat, %v, %v, 0, (%v,%v,%v,%v,%v))", kind, len(games), useCache, recreate, returned, ierr == nil, lockFree, eq, cacheGood)
+				rep.Cases++
+			}
+		}
+	}
+	sb.WriteString("].\nDefinition MC := Eval vm_compute in (cache_mismatches ccases).\nPrint MC.\n")
+	f.WriteString(sb.String())
+	rep.Distinct = rep.Cases
+	rep.Sample(map[string]interface{}{"collections": n})
+	return rep.Emit()
+}
+
+func init() { register("c19-cases", c19Cases) }
